@@ -106,6 +106,7 @@ func checkTotalFacts(c ExecCase) (v *Violation, f totalFacts) {
 		ev = &Ev{Prop: "C05"}
 	}
 	open := pr.orderOpen()
+	kv2 := pr.chainedKeyvalue()
 	for _, silent := range []bool{false, true} {
 		obs := pr.observe(silent)
 		again := pr.observe(silent)
@@ -156,7 +157,8 @@ func checkTotalFacts(c ExecCase) (v *Violation, f totalFacts) {
 					}
 				}
 			}
-			// purity: the same call again returns the same thing
+			// purity: the same call again returns the same thing (keyvalue ids of chained
+			// .keyvalue() steps aside: open finding D30, C16's statement)
 			if e.o2.Panic != "" {
 				return violf("%s panicked on repetition: %s", at, e.o2.Panic), f
 			}
@@ -164,8 +166,8 @@ func checkTotalFacts(c ExecCase) (v *Violation, f totalFacts) {
 				continue
 			}
 			if e.o.Class != e.o2.Class || e.o.Bool != e.o2.Bool ||
-				!sameSeq(RenderSeq(e.o.Items, false), RenderSeq(e.o2.Items, false)) ||
-				Render(e.o.Item, false) != Render(e.o2.Item, false) {
+				!sameSeq(RenderSeq(e.o.Items, kv2), RenderSeq(e.o2.Items, kv2)) ||
+				Render(e.o.Item, kv2) != Render(e.o2.Item, kv2) {
 				return violf("%s is not repeatable: %s then %s", at, e.o, e.o2), f
 			}
 		}
